@@ -214,6 +214,11 @@ func main() {
 	r.Assume("the multiset model (slice of (id,key) + handle table) is the specification; comparators are strict weak orders of the form f(a.K) < f(b.K); an element's identity is the unique ID stored in its Value; positions inside Heap are never read (only Index(), Len, Peek, Pop, PopAll), Slice.Values (before any other call is made) and the harness container's own storage are read directly")
 	opt := ev.Opt{HangViolation: true, MaxCaseSeconds: 120}
 	r.Cases("heap", r.N(120000, 3000000), opt, heapCase)
+	// the same workload on parallel workers under the race detector: package-level state shared
+	// between instances that no goroutine shares is reported from the happens-before relation,
+	// whether or not the accesses collide in this run (and however loaded the machine is)
+	r.CasesProc("heap/race-parallel", r.N(1200, 30000), ev.Opt{Bin: "race", Procs: 2, Workers: 8, AlwaysLog: true, HangViolation: true, MaxCaseSeconds: 120}, heapCase)
+	r.CasesProc("slice/race-parallel", r.N(800, 20000), ev.Opt{Bin: "race", Procs: 2, Workers: 8, AlwaysLog: true, HangViolation: true, MaxCaseSeconds: 120}, sliceCase)
 	r.Cases("slice", r.N(80000, 2000000), opt, sliceCase)
 	r.Cases("generic", r.N(80000, 2000000), opt, genericCase)
 	r.Cases("sweep", r.N(5000, 120000), opt, sweepCase)
